@@ -4,7 +4,9 @@ Implementation functions driven (real code from /repo/src):
   spatial.get_normal_vector, get_volume_positions, get_series_volume_positions,
   get_plane_sort_index, sort_datasets (get_dataset_sort_index),
   image.get_volume_from_series, Image.get_volume / get_volume_geometry on
-  synthetic enhanced multi-frame CT datasets.
+  synthetic enhanced multi-frame CT datasets; Image.get_volume_geometry and
+  Segmentation.get_volume_geometry with every combination of passed / defaulted
+  allow_missing_positions x allow_duplicate_positions (kind mf_geometry).
 Model: coq/theories/C11_Model.v; theorems: C11_Props.v.
 
 The oracle is independent of the model: every stack is generated from ideal
@@ -39,9 +41,13 @@ ORACLE_PREMISES = [
 MODELLED = ('spatial.get_normal_vector, _normalize_pixel_index_convention, _get_slice_distances, '
             'get_volume_positions (all branches), get_series_volume_positions, get_plane_sort_index, '
             'get_dataset_sort_index/sort_datasets; image.get_volume_from_series (ordering, spacing, origin, slice '
-            'axis), _Image._get_stacked_volume_geometry + get_volume (frame placement, gaps, origin, slice axis)')
+            'axis), _Image._get_stacked_volume_geometry + get_volume (frame placement, gaps, origin, slice axis), '
+            'Image.get_volume_geometry / Segmentation.get_volume_geometry -> _get_volume_geometry (class defaults of '
+            'allow_missing_positions / allow_duplicate_positions, forwarding of both declarations, RuntimeError -> '
+            'None, number of slices, spacing, origin, slice axis)')
 STRATA = ['perm_all', 'regular', 'unsorted', 'dups', 'gaps', 'jitter', 'shear', 'scrambled', 'inplane', 'hint',
-          'malformed', 'normal', 'series', 'plane_sort', 'sort_datasets', 'vol_series', 'vol_multiframe']
+          'malformed', 'normal', 'series', 'plane_sort', 'sort_datasets', 'vol_series', 'vol_multiframe',
+          'mf_geometry']
 NOT_EXECUTED = ['Segmentation.get_volume (same _prepare_volume_positions_table path, covered by C01/C02 harnesses)',
                 'tiled (slide coordinate system) branch of get_volume: no stacking involved']
 RULE = ('stacks of n <= 8 planes (<= 12 thorough) from integer ranks x spacing along the normal of 24 axis-aligned '
@@ -53,7 +59,13 @@ RULE = ('stacks of n <= 8 planes (<= 12 thorough) from integer ranks x spacing a
         'malformed stream; series of single-frame CT datasets and enhanced multi-frame CT datasets built from the '
         'same stacks, every instance / frame with its own dyadic RescaleSlope/Intercept and distinct stored pixels, '
         'apply_modality_transform default/True/False, the whole assembled array compared with the ground truth '
-        'stored_k*slope_k+intercept_k at the sorted index. non-trivial = more than one distinct plane and the spec decides the case (not within 1e-6 of '
+        'stored_k*slope_k+intercept_k at the sorted index; mf_geometry: multi-frame images (enhanced CT through '
+        'Image, binary segmentation through Segmentation) whose frames share planes (every plane several frames / one '
+        'repeated frame / all coincident), with gaps, both, jitter, shear, hints, queried through get_volume_geometry '
+        'with allow_missing_positions and allow_duplicate_positions each passed True / False / not passed (class '
+        'default): the full 3 x 3 matrix x both classes on stacks with duplicates, duplicates and a gap, complete and '
+        'with a gap, plus random ones; the same frames in a second order must give the identical geometry. '
+        'non-trivial = more than one distinct plane and the spec decides the case (not within 1e-6 of '
         'a threshold); distinct by case hash')
 EXHAUSTIVE = {'quick': False, 'thorough': False}
 
@@ -361,6 +373,10 @@ def gen_cases(rng, tier):
         if mode == 'unsorted':
             ks = sorted(ks, reverse=rng.random() < 0.5)
             o.update(sort=False, enforce=rng.random() < 0.5)
+        elif rng.random() < 0.4:
+            # the two declarations independently of what the stack contains
+            o.setdefault('missing', rng.random() < 0.5)
+            o.setdefault('dups', rng.random() < 0.5)
         c = _mk(rng, 'series', ks, opts=o, note=mode)
         s = F(c['meta']['s'])
         if mode == 'jit' and n > 2:
@@ -432,7 +448,59 @@ def gen_cases(rng, tier):
         c['rows'], c['cols'] = rng.randint(1, 3), rng.randint(1, 3)
         _add_rescale(rng, c)
         cases.append(c)
+    # -- geometry of a multi-frame image through the public entry points, with the two declarations
+    #    (gaps / duplicates) each passed True / False / left to the default of the class
+    tri = (None, True, False)
+    for target in ('image', 'seg'):
+        for km in tri:
+            for kd in tri:
+                for mode in ('dupall', 'dupgap', 'ok', 'gap'):
+                    cases.append(_mk_geometry(rng, target, mode, km, kd, rng.randint(2, 4)))
+    for _ in range(N):
+        mode = rng.choice(['ok', 'dup', 'dup', 'dupall', 'dupall', 'gap', 'dupgap', 'dupgap', 'coincident', 'hint',
+                           'badhint', 'jit', 'shear', 'single', 'bothtol'])
+        cases.append(_mk_geometry(rng, 'seg' if rng.random() < 0.35 else 'image', mode, rng.choice(tri),
+                                  rng.choice(tri), rng.randint(2, 6)))
     return cases
+
+
+def _mk_geometry(rng, target, mode, km, kd, n):
+    """mf_geometry case: `n` planes; km / kd = allow_missing_positions / allow_duplicate_positions as
+    passed to get_volume_geometry (None = not passed)."""
+    ks = _perm(rng, n + (1 if mode in ('gap', 'dupgap') else 0))
+    if mode in ('gap', 'dupgap'):
+        ks.remove(rng.choice([1, max(ks) - 1]))
+    if mode == 'dup':
+        for _d in range(rng.randint(1, 2)):
+            ks.insert(rng.randrange(len(ks) + 1), rng.choice(ks))
+    if mode in ('dupall', 'dupgap'):
+        ks = ks * rng.randint(2, 3) if mode == 'dupall' or rng.random() < 0.5 else ks + [rng.choice(ks)]
+        rng.shuffle(ks)
+    if mode == 'coincident':
+        ks = [ks[0]] * rng.randint(2, 4)
+    if mode == 'single':
+        ks = ks[:1]
+    rt, at = _tol(rng) if mode not in ('jit', 'shear') else (None, None)
+    if mode == 'bothtol':
+        rt, at = 1 / 64, 1 / 8
+    if mode in ('jit', 'shear') and rng.random() < 0.5:
+        ks.append(rng.choice(ks))
+    c = _mk(rng, 'mf_geometry', ks, opts={'rtol': rt, 'atol': at}, conv='DR', hand='R', note=mode)
+    s = F(c['meta']['s'])
+    if mode in ('jit', 'shear'):
+        fj = s * rng.choice([F(1, 400), F(1, 20)])
+        who = rng.choice(ks)
+        tl = rng.choice([F(1, 100), F(1, 4)])
+        jit = [fj if (mode == 'jit' and k == who) else F(0) for k in ks]      # frames of one plane move together
+        lat = [k * s * tl if mode == 'shear' else F(0) for k in ks]
+        c = _mk(rng, 'mf_geometry', ks, rc=[F(x) for x in c['rc']], cc=[F(x) for x in c['cc']], jit=jit, lat=lat,
+                s=s, opts={'rtol': rt, 'atol': at}, conv='DR', hand='R', note=mode)
+    c['opts']['hint'] = (float(s) if mode == 'hint' else float(2 * s) if mode == 'badhint' else
+                         float(s) if rng.random() < 0.1 else None)
+    c['target'], c['kw_missing'], c['kw_dups'] = target, km, kd
+    c['perm_seed'] = rng.randrange(1, 10**6) if rng.random() < 0.6 else None
+    c['rows'], c['cols'], c['resc'], c['amt'] = rng.randint(1, 3), rng.randint(1, 3), None, None
+    return c
 
 
 # --------------------------------------------------------------------------
@@ -546,6 +614,58 @@ def _enhanced(c):
     return ds
 
 
+def _seg_dataset(c):
+    """binary segmentation (from the shipped fixture) whose frames are the planes of the case"""
+    import numpy as np
+    import synth
+    from copy import deepcopy
+    from pydicom.pixels.utils import pack_bits
+    ds = synth.base('seg_image_ct_binary.dcm')
+    n = len(c['pos'])
+    sh = ds.SharedFunctionalGroupsSequence[0]
+    sh.PlaneOrientationSequence[0].ImageOrientationPatient = _orient(c)
+    pm = sh.PixelMeasuresSequence[0]
+    if 'SpacingBetweenSlices' in pm:
+        del pm.SpacingBetweenSlices
+    if c['opts']['hint'] is not None:
+        pm.SpacingBetweenSlices = c['opts']['hint']
+    tmpl = ds.PerFrameFunctionalGroupsSequence[0]
+    items = []
+    for f, p in enumerate(c['pos']):
+        it = deepcopy(tmpl)
+        it.PlanePositionSequence[0].ImagePositionPatient = [float(x) for x in p]
+        it.FrameContentSequence[0].DimensionIndexValues = [1, f + 1]
+        items.append(it)
+    ds.PerFrameFunctionalGroupsSequence = items
+    ds.NumberOfFrames = n
+    ds.PixelData = pack_bits(np.zeros(n * ds.Rows * ds.Columns, np.uint8))
+    return ds
+
+
+def _geometry_image(c, order=None):
+    """the multi-frame image of an mf_geometry case (frames in `order`), as Image or Segmentation"""
+    import highdicom as hd
+    d = c if order is None else dict(c, pos=[c['pos'][i] for i in order])
+    if c['target'] == 'seg':
+        return hd.seg.Segmentation.from_dataset(_seg_dataset(d))
+    return hd.Image.from_dataset(_enhanced(d))
+
+
+def _geometry_kwargs(c):
+    kw = dict(rtol=c['opts']['rtol'], atol=c['opts']['atol'])
+    if c['kw_missing'] is not None:
+        kw['allow_missing_positions'] = c['kw_missing']
+    if c['kw_dups'] is not None:
+        kw['allow_duplicate_positions'] = c['kw_dups']
+    return kw
+
+
+def _canon_geometry(g):
+    if g is None:
+        return None
+    return [int(g.spatial_shape[0]), float(g.spacing[0]), g.affine[:3, 3].tolist(), g.affine[:3, 0].tolist()]
+
+
 def _ids_of(arr, c, n):
     """identifier of every slice of an assembled ARRAY (None = empty slot, -1 = the slice is not the
     ground truth  stored_k * slope_k + intercept_k  of any input instance / frame)"""
@@ -609,6 +729,17 @@ def run_impl(c):
                 ids = _ids_of(v.array, c, len(c['pos']))
                 return [ids, float(v.spacing[0]), v.affine[:3, 3].tolist(), v.affine[:3, 0].tolist()]
             return catch(f)
+        if k == 'mf_geometry':
+            kw = _geometry_kwargs(c)
+            out = catch(lambda: _canon_geometry(_geometry_image(c).get_volume_geometry(**kw)))
+            if c.get('perm_seed') is not None and len(c['pos']) > 1:
+                import random
+                order = list(range(len(c['pos'])))
+                random.Random(c['perm_seed']).shuffle(order)
+                out2 = catch(lambda: _canon_geometry(_geometry_image(c, order).get_volume_geometry(**kw)))
+                if out2 != out:
+                    return f'geometry depends on the order of the frames: {out!r} / frames reordered {order}: {out2!r}'
+            return out
         # get_volume_positions kinds
         kw = _kw(c)
         kw['spacing_hint'] = c['opts']['hint']
@@ -673,6 +804,8 @@ def _undecided(c):
     if k == 'vol_multiframe':
         _, D, L = _by_rank(c)
         return _spec(D, L, dict(c['opts'], sort=True, dups=True, enforce=False), c['opts']['hint']) == ANY
+    if k == 'mf_geometry':
+        return _geometry_expected(c)[2] == ANY
     return _expected(c) == ANY
 
 
@@ -700,6 +833,10 @@ def coq_term(c):
         items = [f'({i + 1}, {_v3(p)})' for i, p in enumerate(c['pos'])]
         return (f"(run_multiframe [{'; '.join(items)}] {rc} {cc} {_oq(c['opts']['hint'])} "
                 f"{_oq(c['opts']['rtol'])} {_oq(c['opts']['atol'])} {_b(c['opts']['missing'])})")
+    if k == 'mf_geometry':
+        ob = lambda x: 'None' if x is None else f'(Some {_b(x)})'
+        return (f"(run_mf_geometry {ps} {rc} {cc} {_oq(c['opts']['hint'])} {_oq(c['opts']['rtol'])} "
+                f"{_oq(c['opts']['atol'])} {_b(c['target'] == 'seg')} {ob(c['kw_missing'])} {ob(c['kw_dups'])})")
     return f"(run_gvp {ps} {rc} {cc} {_opts(c, c['opts']['hint'])})"
 
 
@@ -977,9 +1114,42 @@ def oracle(c, out):
             return f'frames placed {ids}, expected {slots}'
         first = exp[2].index(0)
         return _geom_check(c, sign, sp, org, sv, exp[1], c['pos'][first])
+    if k == 'mf_geometry':
+        sign, (em, ed), exp = _geometry_expected(c)
+        what = (f"{'Segmentation' if c['target'] == 'seg' else 'Image'}.get_volume_geometry("
+                f"{', '.join(f'{a}={b}' for a, b in _geometry_kwargs(c).items() if b is not None)}) "
+                f"[gaps {'allowed' if em else 'not allowed'}, duplicates {'allowed' if ed else 'not allowed'}]")
+        if exp == ANY:
+            return None
+        if exp[0] == 'err' and exp[1] != 'RuntimeError':
+            return None if out == Err(exp[1]) else f'{what}: expected {exp[1]}, got {out!r}'
+        if exp[0] in ('err', 'none'):
+            return None if out is None else f'{what}: stack must be rejected (None), got {out!r}'
+        if out is None or isinstance(out, Err):
+            return (f'{what}: regular stack refused ({out!r}), expected {max(exp[2]) + 1} slices with spacing '
+                    f'{float(exp[1])}')
+        nsl, sp, org, sv = out
+        if nsl != max(exp[2]) + 1:
+            return f'{what}: {nsl} slices, expected {max(exp[2]) + 1}'
+        r = _geom_check(c, sign, sp, org, sv, exp[1], c['pos'][exp[2].index(0)])
+        return f'{what}: {r}' if r else None
     # get_volume_positions kinds
     exp = _expected(c)
     return _match(out, exp, 'get_volume_positions') or _numpy_check(c, out)
+
+
+# documented defaults of the two public entry points (image.py / seg/sop.py signatures)
+_GEOMETRY_DEFAULTS = {'image': {'missing': False, 'dups': True}, 'seg': {'missing': True, 'dups': True}}
+
+
+def _geometry_expected(c):
+    """(sign, (gaps allowed, duplicates allowed), verdict of the spec) for an mf_geometry case"""
+    dflt = _GEOMETRY_DEFAULTS[c['target']]
+    em = dflt['missing'] if c['kw_missing'] is None else c['kw_missing']
+    ed = dflt['dups'] if c['kw_dups'] is None else c['kw_dups']
+    sign, D, L = _by_rank(c)
+    exp = _spec(D, L, dict(c['opts'], sort=True, missing=em, dups=ed, enforce=False), c['opts']['hint'])
+    return sign, (em, ed), exp
 
 
 def _geom_check(c, sign, sp, org, sv, want_sp, want_org):
